@@ -15,6 +15,7 @@ pub mod c08;
 pub mod c16;
 pub mod c09;
 pub mod c20;
+pub mod c07;
 pub mod c18;
 
 pub fn lookup(id: &str) -> Option<&'static dyn Prop> {
@@ -35,6 +36,7 @@ pub fn lookup(id: &str) -> Option<&'static dyn Prop> {
         "C16" => Some(&c16::C16),
         "C09" => Some(&c09::C09),
         "C20" => Some(&c20::C20),
+        "C07" => Some(&c07::C07),
         "C18" => Some(&c18::C18),
         _ => None,
     }
